@@ -474,41 +474,41 @@ theorem convStr_defined (vt vs : Variant) (name : Str) (cv : Conv) (sh : Shape) 
 
 /-! ### from a cell to its conversion list -/
 
-theorem cellWire_single (vt vs : Variant) (c : Cell) (name : Str) (x : Val) (cv : Conv)
-    (h : defConvs vt ⟨name, c, none⟩ = [cv]) : cellWire vt vs c name x = convStr vt vs name cv x := by
+theorem cellWire_single (vt vm vs : Variant) (c : Cell) (name : Str) (x : Val) (cv : Conv)
+    (h : defConvs vt ⟨name, c, none⟩ = [cv]) : cellWire vt vm vs c name x = convStr vm vs name cv x := by
   simp only [cellWire, h, List.reverse_cons, List.reverse_nil, List.nil_append, applyConvsVal]
-  cases convStr vt vs name cv x <;> simp [spell]
+  cases convStr vm vs name cv x <;> simp [spell]
 
-theorem cellWire_toString (vt vs : Variant) (c : Cell) (name : Str) (x : Val) (cv : Conv)
-    (h : defConvs vt ⟨name, c, none⟩ = [.toString, cv]) : cellWire vt vs c name x = convStr vt vs name cv x := by
+theorem cellWire_toString (vt vm vs : Variant) (c : Cell) (name : Str) (x : Val) (cv : Conv)
+    (h : defConvs vt ⟨name, c, none⟩ = [.toString, cv]) : cellWire vt vm vs c name x = convStr vm vs name cv x := by
   simp only [cellWire, h, List.reverse_cons, List.reverse_nil, List.nil_append, List.cons_append, applyConvsVal]
-  cases convStr vt vs name cv x with
+  cases convStr vm vs name cv x with
   | none => simp
   | some s => cases vs <;> simp [convStr, itemStr, pyStr, spell]
 
-theorem cell_via_single {vt vs : Variant} {c : Cell} {name : Str} {x : Val} {cv : Conv} {sh : Shape} {w : Str}
-    (h : defConvs vt ⟨name, c, none⟩ = [cv]) (hr : realises vt cv sh = true) (hd : Decodable name sh x)
-    (hs : StrOk vs x) (hw : cellWire vt vs c name x = some w) : decodeShape name sh w = some (coerce x) := by
-  rw [cellWire_single vt vs c name x cv h] at hw
-  exact master vt vs name cv sh x w hr hd hs hw
+theorem cell_via_single {vt vm vs : Variant} {c : Cell} {name : Str} {x : Val} {cv : Conv} {sh : Shape} {w : Str}
+    (h : defConvs vt ⟨name, c, none⟩ = [cv]) (hr : realises vm cv sh = true) (hd : Decodable name sh x)
+    (hs : StrOk vs x) (hw : cellWire vt vm vs c name x = some w) : decodeShape name sh w = some (coerce x) := by
+  rw [cellWire_single vt vm vs c name x cv h] at hw
+  exact master vm vs name cv sh x w hr hd hs hw
 
-theorem cell_via_toString {vt vs : Variant} {c : Cell} {name : Str} {x : Val} {cv : Conv} {sh : Shape} {w : Str}
-    (h : defConvs vt ⟨name, c, none⟩ = [.toString, cv]) (hr : realises vt cv sh = true) (hd : Decodable name sh x)
-    (hs : StrOk vs x) (hw : cellWire vt vs c name x = some w) : decodeShape name sh w = some (coerce x) := by
-  rw [cellWire_toString vt vs c name x cv h] at hw
-  exact master vt vs name cv sh x w hr hd hs hw
+theorem cell_via_toString {vt vm vs : Variant} {c : Cell} {name : Str} {x : Val} {cv : Conv} {sh : Shape} {w : Str}
+    (h : defConvs vt ⟨name, c, none⟩ = [.toString, cv]) (hr : realises vm cv sh = true) (hd : Decodable name sh x)
+    (hs : StrOk vs x) (hw : cellWire vt vm vs c name x = some w) : decodeShape name sh w = some (coerce x) := by
+  rw [cellWire_toString vt vm vs c name x cv h] at hw
+  exact master vm vs name cv sh x w hr hd hs hw
 
-theorem cell_plain_nil {vt vs : Variant} {c : Cell} {name : Str} {x : Val} {w : Str}
+theorem cell_plain_nil {vt vm vs : Variant} {c : Cell} {name : Str} {x : Val} {w : Str}
     (h : defConvs vt ⟨name, c, none⟩ = []) (hd : Decodable name .plain x)
-    (hw : cellWire vt vs c name x = some w) : decodeShape name .plain w = some (coerce x) := by
+    (hw : cellWire vt vm vs c name x = some w) : decodeShape name .plain w = some (coerce x) := by
   cases x <;> simp only [Decodable] at hd
   simp only [cellWire, h, List.reverse_nil, applyConvsVal, Option.some.injEq] at hw
   subst hw
   rfl
 
-theorem cell_plain_toString {vt vs : Variant} {c : Cell} {name : Str} {x : Val} {w : Str}
+theorem cell_plain_toString {vt vm vs : Variant} {c : Cell} {name : Str} {x : Val} {w : Str}
     (h : defConvs vt ⟨name, c, none⟩ = [.toString]) (hd : Decodable name .plain x) (hs : StrOk vs x)
-    (hw : cellWire vt vs c name x = some w) : decodeShape name .plain w = some (coerce x) := by
+    (hw : cellWire vt vm vs c name x = some w) : decodeShape name .plain w = some (coerce x) := by
   cases x with
   | prim p =>
     simp only [cellWire, h, List.reverse_cons, List.reverse_nil, List.nil_append, applyConvsVal, convStr,
@@ -520,28 +520,28 @@ theorem cell_plain_toString {vt vs : Variant} {c : Cell} {name : Str} {x : Val} 
   | obj kvs => simp only [Decodable] at hd
 
 /-- existence form: the wire text is defined and decodes to the coerced value -/
-theorem cell_via_single' {vt vs : Variant} {c : Cell} {name : Str} {x : Val} {cv : Conv} {sh : Shape}
-    (h : defConvs vt ⟨name, c, none⟩ = [cv]) (hr : realises vt cv sh = true) (hd : Decodable name sh x)
-    (hs : StrOk vs x) : ∃ w, cellWire vt vs c name x = some w ∧ decodeShape name sh w = some (coerce x) := by
-  obtain ⟨w, hw⟩ := convStr_defined vt vs name cv sh x hr hd
-  exact ⟨w, by rw [cellWire_single vt vs c name x cv h, hw], master vt vs name cv sh x w hr hd hs hw⟩
+theorem cell_via_single' {vt vm vs : Variant} {c : Cell} {name : Str} {x : Val} {cv : Conv} {sh : Shape}
+    (h : defConvs vt ⟨name, c, none⟩ = [cv]) (hr : realises vm cv sh = true) (hd : Decodable name sh x)
+    (hs : StrOk vs x) : ∃ w, cellWire vt vm vs c name x = some w ∧ decodeShape name sh w = some (coerce x) := by
+  obtain ⟨w, hw⟩ := convStr_defined vm vs name cv sh x hr hd
+  exact ⟨w, by rw [cellWire_single vt vm vs c name x cv h, hw], master vm vs name cv sh x w hr hd hs hw⟩
 
-theorem cell_via_toString' {vt vs : Variant} {c : Cell} {name : Str} {x : Val} {cv : Conv} {sh : Shape}
-    (h : defConvs vt ⟨name, c, none⟩ = [.toString, cv]) (hr : realises vt cv sh = true) (hd : Decodable name sh x)
-    (hs : StrOk vs x) : ∃ w, cellWire vt vs c name x = some w ∧ decodeShape name sh w = some (coerce x) := by
-  obtain ⟨w, hw⟩ := convStr_defined vt vs name cv sh x hr hd
-  exact ⟨w, by rw [cellWire_toString vt vs c name x cv h, hw], master vt vs name cv sh x w hr hd hs hw⟩
+theorem cell_via_toString' {vt vm vs : Variant} {c : Cell} {name : Str} {x : Val} {cv : Conv} {sh : Shape}
+    (h : defConvs vt ⟨name, c, none⟩ = [.toString, cv]) (hr : realises vm cv sh = true) (hd : Decodable name sh x)
+    (hs : StrOk vs x) : ∃ w, cellWire vt vm vs c name x = some w ∧ decodeShape name sh w = some (coerce x) := by
+  obtain ⟨w, hw⟩ := convStr_defined vm vs name cv sh x hr hd
+  exact ⟨w, by rw [cellWire_toString vt vm vs c name x cv h, hw], master vm vs name cv sh x w hr hd hs hw⟩
 
-theorem cell_plain_nil' {vt vs : Variant} {c : Cell} {name : Str} {x : Val}
+theorem cell_plain_nil' {vt vm vs : Variant} {c : Cell} {name : Str} {x : Val}
     (h : defConvs vt ⟨name, c, none⟩ = []) (hd : Decodable name .plain x) :
-    ∃ w, cellWire vt vs c name x = some w ∧ decodeShape name .plain w = some (coerce x) := by
+    ∃ w, cellWire vt vm vs c name x = some w ∧ decodeShape name .plain w = some (coerce x) := by
   cases x <;> simp only [Decodable] at hd
   rename_i p
   exact ⟨spell p, by simp [cellWire, h, applyConvsVal], rfl⟩
 
-theorem cell_plain_toString' {vt vs : Variant} {c : Cell} {name : Str} {x : Val}
+theorem cell_plain_toString' {vt vm vs : Variant} {c : Cell} {name : Str} {x : Val}
     (h : defConvs vt ⟨name, c, none⟩ = [.toString]) (hd : Decodable name .plain x) (hs : StrOk vs x) :
-    ∃ w, cellWire vt vs c name x = some w ∧ decodeShape name .plain w = some (coerce x) := by
+    ∃ w, cellWire vt vm vs c name x = some w ∧ decodeShape name .plain w = some (coerce x) := by
   cases x <;> simp only [Decodable] at hd
   rename_i p
   refine ⟨itemStr vs p, by simp [cellWire, h, applyConvsVal, convStr, spell], ?_⟩
